@@ -32,13 +32,13 @@ type CaseCtx struct {
 
 // CaseResult is what a case produces
 type CaseResult struct {
-	Idx          int           `json:"idx"`
-	Findings     []drv.Finding `json:"findings,omitempty"`
-	Situations   []string      `json:"situations,omitempty"`
-	Evaluations  int           `json:"evaluations"`
-	Events       int           `json:"events,omitempty"`
-	Inconclusive string        `json:"inconclusive,omitempty"`
-	Sample       any           `json:"sample,omitempty"`
+	Idx          int            `json:"idx"`
+	Findings     []drv.Finding  `json:"findings,omitempty"`
+	Situations   []string       `json:"situations,omitempty"`
+	Evaluations  int            `json:"evaluations"`
+	Events       int            `json:"events,omitempty"`
+	Inconclusive string         `json:"inconclusive,omitempty"`
+	Sample       any            `json:"sample,omitempty"`
 	Extra        map[string]int `json:"extra,omitempty"`
 }
 
@@ -419,7 +419,7 @@ func crashSig(stderr string) string {
 	for _, l := range strings.Split(stderr, "\n") {
 		l = strings.TrimSpace(l)
 		if strings.HasPrefix(l, "github.com/Flowpack/prunner") {
-			if j := strings.Index(l, "("); j > 0 {
+			if j := strings.LastIndex(l, "("); j > 0 {
 				l = l[:j]
 			}
 			return kind + "@" + strings.TrimPrefix(l, "github.com/Flowpack/prunner")
